@@ -3283,7 +3283,7 @@ theorem c06_shape_Tree_MakeTreeMarshal :
 
 theorem c06_shape_TreeMarshalCopyTree :
     Shapes.tree_TreeMarshalCopyTree =
-   ["assign:tm:=&TreeMarshal{TreeNodeID:tr.ID,ServerIdentityID:tr.ServerIdentity.ID}",
+   ["ServerIdentity.GetID", "assign:tm:=&TreeMarshal{TreeNodeID:tr.ID,ServerIdentityID:tr.ServerIdentity.GetID()}",
      "range:i,:=tr.Children{", "TreeMarshalCopyTree",
      "assign:tm.Children=append(tm.Children,TreeMarshalCopyTree(tr.Children[i]))", "}",
      "return:tm"] := rfl
@@ -3350,7 +3350,7 @@ theorem c06_shape_TreeMarshal_MakeTree_full :
 
 theorem c06_shape_TreeMarshal_MakeTreeFromList_full :
     Shapes.tree_TreeMarshal_MakeTreeFromList_full =
-   ["ro.Search", "assign:idx,ent:=ro.Search(tm.ServerIdentityID)", "if:(idx<0)",
+   ["ro.searchByKey", "assign:idx,ent:=ro.searchByKey(tm.ServerIdentityID)", "if:(idx<0)",
      "return:nil,xerrors.New(\"\")", "if:(ent.Public==nil)", "return:nil,xerrors.New(\"\")",
      "assign:tn:=&TreeNode{Parent:parent,ID:tm.TreeNodeID,ServerIdentity:ent,RosterIndex:idx}",
      "range:_,c:=tm.Children{", "c.MakeTreeFromList",
@@ -3445,6 +3445,12 @@ theorem c06_shape_Overlay_addPendingTreeMarshal :
    ["pendingTreeLock.Lock", "assign:sl,ok=o.pendingTreeMarshal[tm.RosterID]", "if:!ok",
      "assign:sl=make(conv,0)", "assign:sl=append(sl,tm)",
      "assign:o.pendingTreeMarshal[tm.RosterID]=sl", "pendingTreeLock.Unlock"] := rfl
+
+
+/-- the look-up `MakeTreeFromList` uses since round 7: by the identifier derived from the entry's key -/
+theorem c06_shape_Roster_searchByKey :
+    Shapes.tree_Roster_searchByKey =
+   ["range:i,e:=ro.List{", "if:e.GetID().Equal(eID)", "return:i,e", "}", "return:-1,nil"] := rfl
 
 
 end C06
